@@ -6,6 +6,7 @@ open Qx.Driver Qx.C17
 /-
 Line protocol of the C17 model driver (table = the generated one):
   reset <spec>          spec = `-` | item(;item)*   item = row | row*N | row=tag1,tag2   -> `ok` | `unknown-field <row>`
+                        (row `extensions` = application-supplied unknown extensions: elements `app-ext{verif:app}`)
   w pub|sens|all        children of toXml(mode)                                          -> `tag{ns} …` | `-`
   w content             children of serializeExtensions(SceSensitive, "jabber:client")
   p <part> <mode>       parse(toXml(part), mode) into a fresh message                    -> `fields | unknown`
@@ -28,7 +29,7 @@ def rowOf (name : String) : Option Row := T.rows.find? fun r => r.name == name
 
 def mkElems (r : Row) (tags : List String) : List Elem :=
   (List.range tags.length).zip tags |>.map fun (i, t) =>
-    { tag := t, ns := r.nss.headD "", val := s!"{r.name}#{i}" }
+    { tag := t, ns := if r.catchAll then "verif:app" else r.nss.headD "", val := s!"{r.name}#{i}" }
 
 /-- one item of a reset spec -/
 def parseItem (item : String) : Except String (Row × List String) :=
@@ -45,7 +46,7 @@ def parseItem (item : String) : Except String (Row × List String) :=
   | some r =>
     match tags? with
     | some ts => .ok (r, ts)
-    | none => .ok (r, List.replicate count (r.tags.headD "?"))
+    | none => .ok (r, List.replicate count (if r.catchAll then "app-ext" else r.tags.headD "?"))
 
 def parseSpec (spec : String) : Except String Msg :=
   if spec == "-" then .ok Msg.empty else
